@@ -446,27 +446,34 @@ class Cluster:
             cb = 'fn'
         self.cur_op = ('emit', tok)
         want = self.model.recipients(ns, to, skip)
+        # the application may well emit the very same thing twice in a row
+        # (a tick): two emits, two deliveries per addressed client
+        times = 2 if (not self.delayed and cb is None and
+                      rng.random() < 0.1) else 1
         info = {'tok': tok, 'to': to, 'skip': skip, 'ns': ns, 'via': via,
                 't0': self.clock, 'want0': set(want), 'got': [],
-                'cb': cb, 'cb_fired': [], 'n0': len(self.chan.log)}
+                'cb': cb, 'cb_fired': [], 'n0': len(self.chan.log),
+                'times': times}
         self.emits[tok] = info
+        if times == 2:
+            self.ctx.count('identical_emits_repeated')
         try:
-            if via == self.nh:
-                kw = dict(namespace=ns, room=to, skip_sid=skip)
-                if self.kind == 'async':
-                    self.hosts[0].d.run(self.wo.emit('tok%d' % tok,
-                                                     {'t': tok}, **kw))
+            for _ in range(times):
+                if via == self.nh:
+                    kw = dict(namespace=ns, room=to, skip_sid=skip)
+                    if self.kind == 'async':
+                        self.hosts[0].d.run(self.wo.emit(
+                            'tok%d' % tok, {'t': tok}, **kw))
+                    else:
+                        self.wo.emit('tok%d' % tok, {'t': tok}, **kw)
                 else:
-                    self.wo.emit('tok%d' % tok, {'t': tok}, **kw)
-            else:
-                self.hstep(via, ['emit', tok, to, skip, ns, cb])
-                res_exc = None
-                del res_exc
+                    self.hstep(via, ['emit', tok, to, skip, ns, cb])
         except Exception as e:
             return self.fail('emit via %s raised %r' % (via, e))
         self.collect()
         self.ops.append(['emit', tok, 'write-only' if via == self.nh
-                         else via, to, skip, ns, cb])
+                         else via, to, skip, ns, cb] +
+                        (['twice'] if times == 2 else []))
         self.snapshot()
         self.ctx.count('emits')
         if via == self.nh:
@@ -512,7 +519,7 @@ class Cluster:
                                       for g in info['got'])
             want = collections.Counter(
                 {(self.owner_at(s, info)[0], self.owner_at(s, info)[1],
-                  info['ns']): 1 for s in info['want0']})
+                  info['ns']): info.get('times', 1) for s in info['want0']})
             ctx.count('emits_judged_exact')
             if got != want:
                 return self.fail(
@@ -751,11 +758,20 @@ def run(ctx):
     ctx.require('callbacks_checked', 10)
     ctx.require('remote_callbacks_checked', 3)
     ctx.require('emits_via_write_only', 10)
+    ctx.require('identical_emits_repeated', 10)
+    # fresh hosts whose first connections arrive together (threaded server)
+    from checks import c07_init
+    ctx.require('fresh_host_cases', 3)
     k = 0
     while not ctx.out_of_time() and not ctx.too_many_violations():
         run_case(ctx, k)
+        if k % 60 == 0:
+            c07_init.run_case(ctx, k // 60 + ctx.shard * 10 ** 5)
         k += 1
 
 
 def replay(ctx, w):
+    if w['witness'].get('part') == 'fresh_host':
+        from checks import c07_init
+        return c07_init.run_case(ctx, w['witness']['case_index'])
     run_case(ctx, w['witness']['case_index'])
